@@ -69,7 +69,7 @@ CHECKS.update({
     "C01": ("translation_validation",
             "product-program symbolic execution (symx/z3): real NumpyInterpreter, real generated Python class and a reference executor run in one path on a shared symbolic initial state; per event/persistent variable a z3 validity query; programs enumerated (curated + bounded-exhaustive small + seeded random)",
             "Three-way translation validation per program: interpreter == generated Python == program order, for all integer initial states, all results of user functions/built-ins (uninterpreted), bounded by K=3 steps (thorough 4) and 24 events, run under max_steps and under a symbolic end time. Programs are enumerated, data is solver-decided.",
-            "Trusted: z3, symx proxies, RefProgram (vf/refprog.py, works on the JSON DSL, independent of dagrt/pymbolic). Outside: int-vs-float result types, division by zero, IEEE rounding, programs outside the validity predicate; explorations that hit the path/wall budget are counted incomplete.",
+            "Trusted: z3, symx proxies, RefProgram (vf/refprog.py, works on the JSON DSL, independent of dagrt/pymbolic). Outside: int-vs-float result types, division by zero, IEEE rounding, programs outside the validity predicate; explorations that hit the path/CPU budget are counted incomplete; products of symbolic integers above degree 2 are uninterpreted (AC-normal form): equalities proved there are sound, mismatches found there are reported only if the concrete replay confirms them (else undecided).",
             "DESIGN.md section 5 C01"),
 })
 
@@ -209,7 +209,7 @@ def main():
         ],
         "checks": checks,
         "not_applicable": na,
-        "notes": "Solver-based checking of the real code (z3 via vf/symx). Exit codes: 0 held / 1 VIOLATION (replayed) / 3 harness error. Known findings: known_findings.json. See DESIGN.md.",
+        "notes": "Solver-based checking of the real code (z3 via vf/symx). Exit codes: 0 held / 1 VIOLATION (replayed) / 3 harness error. Known findings: known_findings.json. Every work item runs in its own forked process; a z3 call that ignores its timeout gets the process stopped and the item is reported as undecided (evidence: work_items_lost_to_solver_hang). Budgets are CPU time. Thorough tier re-asks every 400th validity query of cvc5. See DESIGN.md section 12.",
     }
     with open(os.path.join(VERIF, "MANIFEST.json"), "w") as f:
         json.dump(manifest, f, indent=1)
